@@ -352,3 +352,113 @@ func ruleReorderGuard(p *Prog, r *Result) {
 	}
 	r.floor("re-association obligations", n, 10)
 }
+
+func init() {
+	register("FOLDFLAGS", "Boolean simplification (x & true, x | false, ...) treats an operand as a constant only when that very operand is a BoolExpr literal: every flag tested by the simplifier is a constant per path, and it is true only under a successful *BoolExpr assertion of e.Left / e.Right", ruleFoldFlags)
+}
+
+func ruleFoldFlags(p *Prog, r *Result) {
+	t := p.Named("ExpressionOptimizer")
+	if t == nil {
+		r.undecided("anchor: ExpressionOptimizer not found")
+		return
+	}
+	n := 0
+	for _, fn := range p.methodsOf(t) {
+		// the simplifier: asserts operands of a BinaryOpExpr to *BoolExpr
+		var asserts []*ssa.TypeAssert
+		allInstrs(fn, func(in ssa.Instruction) {
+			if ta, ok := in.(*ssa.TypeAssert); ok && ta.CommaOk && typeName(ta.AssertedType) == "BoolExpr" {
+				if p.derivesFromField(ta.X, "BinaryOpExpr", "Left", traceOpts{}) || p.derivesFromField(ta.X, "BinaryOpExpr", "Right", traceOpts{}) {
+					asserts = append(asserts, ta)
+				}
+			}
+		})
+		if len(asserts) < 2 {
+			continue
+		}
+		// the constant folder proper also tests for other literal kinds: not the Boolean simplifier
+		other := false
+		allInstrs(fn, func(in ssa.Instruction) {
+			if ta, ok := in.(*ssa.TypeAssert); ok && ta.CommaOk {
+				switch typeName(ta.AssertedType) {
+				case "StringExpr", "NumberExpr", "FloatExpr":
+					other = true
+				}
+			}
+		})
+		if other {
+			continue
+		}
+		flags := map[*ssa.Phi]bool{}
+		for _, b := range fn.Blocks {
+			f := ifOf(b)
+			if f == nil {
+				continue
+			}
+			c := f.Cond
+			for {
+				if u, ok := c.(*ssa.UnOp); ok && u.Op == token.NOT {
+					c = u.X
+					continue
+				}
+				break
+			}
+			if ph, ok := c.(*ssa.Phi); ok {
+				if bt, isB := ph.Type().Underlying().(*types.Basic); isB && bt.Kind() == types.Bool {
+					flags[ph] = true
+				}
+			}
+		}
+		i := 0
+		for _, b := range fn.Blocks {
+			for _, in := range b.Instrs {
+				ph, ok := in.(*ssa.Phi)
+				if !ok || !flags[ph] {
+					continue
+				}
+				i++
+				n++
+				key := fmt.Sprintf("%s|flag#%d", p.FName(fn), i)
+				bad := ""
+				for j, e := range ph.Edges {
+					bv, isB := constBool(e)
+					if !isB {
+						// a value flag (the literal's Bool) is fine if it is loaded from an asserted BoolExpr
+						if _, f, base, isF := loadedField(e); isF && f == "Bool" {
+							if ex, ok := base.(*ssa.Extract); ok {
+								if ta, ok := ex.Tuple.(*ssa.TypeAssert); ok && typeName(ta.AssertedType) == "BoolExpr" {
+									continue
+								}
+							}
+						}
+						bad = "a flag of the Boolean simplifier is not a per-path constant (e.g. it is the result of a call): `simplified` is confused with `is a constant`"
+						continue
+					}
+					if !bv {
+						continue
+					}
+					// true only under a successful BoolExpr assertion
+					pred := ph.Block().Preds[j]
+					okA := false
+					for _, ta := range asserts {
+						if okv := extractOf2(ta, 1); okv != nil {
+							for _, a := range edgeAtoms(pred, ph.Block()) {
+								if a.X == okv {
+									if tv, isT := constBool(a.Y); isT && ((a.Op == token.EQL) == tv) {
+										okA = true
+									}
+								}
+							}
+						}
+					}
+					if !okA {
+						bad = "an operand is treated as a Boolean constant without being a BoolExpr literal"
+					}
+				}
+				r.add(bad == "", key, p.InstrPos(ph), firstNonEmpty(bad, "flag is true only for a BoolExpr literal operand"))
+			}
+		}
+	}
+	r.floor("flags of the Boolean simplifier", n, 2)
+}
